@@ -46,14 +46,29 @@ func runC19(c *Ctx) {
 		noClaim := f.EdgesWhere(func(cond ast.Expr) (bool, bool) {
 			cm, ok := asCmp(cond, true)
 			if ok && cm.Op == token.NEQ && isNilIdent(info, cm.R) {
-				if o := objOf(info, cm.L); o != nil && o.Name() == "claim" {
-					return true, false
+				// the claim descriptor: makeJobFn's pointer parameter that is handed to claimClusterFire
+				ps := mj.Obj.Type().(*types.Signature).Params()
+				for i := 0; i < ps.Len(); i++ {
+					if n := namedOf(ps.At(i).Type()); n != nil && n.Obj().Name() == "scheduleFireClaim" && objOf(info, cm.L) == types.Object(ps.At(i)) {
+						return true, false
+					}
 				}
 			}
 			return false, false
 		})
+		wonVars := map[types.Object]bool{} // the boolean result of claimClusterFire
+		ast.Inspect(lit.Body, func(n ast.Node) bool {
+			if as, ok := n.(*ast.AssignStmt); ok && len(as.Lhs) == 2 && len(as.Rhs) == 1 {
+				if call, ok := as.Rhs[0].(*ast.CallExpr); ok && callee(info, call) == claimFn {
+					if id, ok := as.Lhs[0].(*ast.Ident); ok {
+						wonVars[info.ObjectOf(id)] = true
+					}
+				}
+			}
+			return true
+		})
 		won := f.EdgesWhere(func(cond ast.Expr) (bool, bool) {
-			if id, ok := cond.(*ast.Ident); ok && id.Name == "won" {
+			if id, ok := cond.(*ast.Ident); ok && wonVars[info.ObjectOf(id)] {
 				return true, true
 			}
 			return false, false
